@@ -184,6 +184,8 @@ pub struct CodegenContext {
 
     segments: IndexMap<Identifier, Segment>,
     current_segment: Option<Identifier>,
+    /// The segment that is the current one at the start of every pass (the first one that was defined, or the default one)
+    initial_segment: Option<Identifier>,
     banks: IndexMap<Identifier, BankOptions>,
 
     functions: FunctionMap,
@@ -242,6 +244,7 @@ impl CodegenContext {
             pass_idx: 0,
             segments: IndexMap::new(),
             current_segment: None,
+            initial_segment: None,
             banks: IndexMap::new(),
             functions: HashMap::new(),
             symbols: SymbolTable::default(),
@@ -342,6 +345,8 @@ impl CodegenContext {
 
         log::trace!("\n* NEXT PASS ({}) *", self.pass_idx);
         self.segments.values_mut().for_each(|s| s.reset());
+        // Every pass starts in the same segment, regardless of the `.segment` statements of the previous pass
+        self.current_segment = self.initial_segment.clone();
         self.test_elements.clear();
         self.source_map.clear();
     }
@@ -640,7 +645,10 @@ impl CodegenContext {
                                 };
                                 self.segments.insert(name.clone(), Segment::new(segment_opts));
                                 if self.current_segment.is_none() {
-                                    self.current_segment = Some(name);
+                                    self.current_segment = Some(name.clone());
+                                }
+                                if self.initial_segment.is_none() {
+                                    self.initial_segment = Some(name);
                                 }
                             }
                         }
@@ -692,7 +700,10 @@ impl CodegenContext {
 
                             self.segments.insert(name.clone(), Segment::new(opts));
                             if self.current_segment.is_none() {
-                                self.current_segment = Some(name);
+                                self.current_segment = Some(name.clone());
+                            }
+                            if self.initial_segment.is_none() {
+                                self.initial_segment = Some(name);
                             }
                         }
                         _ => {
@@ -1473,6 +1484,7 @@ pub fn codegen(
             ctx.segments
                 .insert("default".into(), Segment::new(seg_opts));
             ctx.current_segment = Some("default".into());
+            ctx.initial_segment = Some("default".into());
         } else {
             // There were segments, so we have emitted something.
 
